@@ -292,7 +292,8 @@ def run(c):
                                            properties=["StopsAtFirstBad"]),
                    name="honest network, inside read_all / write_all, need_rekey, modes classic/etm", timeout=1500)
     r = c.mc_holds("PacketLayer", cfg_text(constants=dict(BASE, NMsgs=1 if c.quick else 2, MaxSwitch=1, MaxChunk=8, Partial=True,
-                                                          Stricts="@{TRUE}", Mutations=MUTANTS), invariants=INV),
+                                                          Stricts="@{TRUE}", Zlibs="@{TRUE}" if c.quick else "@{TRUE, FALSE}", Mutations=MUTANTS),
+                                           invariants=INV),
                    name="inside read_all / write_all with need_rekey + seeded defects %s" % sorted(MUTANTS), workers=1, timeout=1500)
     caught = {x[1] for x in r.printed("CAUGHT")}
     if caught != MUTANTS:
